@@ -705,6 +705,19 @@ const CORPUS: &[&str] = &[
 fn corpus_projects() -> Vec<Project>
 {
 	let f = |n: &str, s: &str| (n.to_string(), s.as_bytes().to_vec());
+	// an include chain deeper than any fixed bound one might pick (71 files)
+	let mut chain = vec![f("r.asm", ".addr 0x100; .include \"f0.asm\"; NOP;")];
+	for k in 0..70 { chain.push(f(&format!("f{}.asm", k), &if k < 69 { format!(".include \"f{}.asm\"; .du8 {};", k + 1, k) } else { format!(".du8 {};", k) })); }
+	let mut v = corpus_projects_fixed(f);
+	v.push(Project{files: chain, root: "r.asm".into()});
+	// files in sub-directories: a name is resolved against the directory of the file that uses it (decoys at the root)
+	v.push(Project{files: vec![f("r.asm", ".addr 0x100; .include \"sub/a.asm\"; .du8 9;"), f("sub/a.asm", ".du8 1; .include \"b.asm\"; .dfile \"blob.bin\"; .du8 5;"),
+		f("sub/b.asm", ".du8 2;"), f("b.asm", ".du8 0xEE;"), ("sub/blob.bin".to_string(), vec![3, 4]), ("blob.bin".to_string(), vec![0xDD, 0xDD])], root: "r.asm".into()});
+	v
+}
+
+fn corpus_projects_fixed(f: impl Fn(&str, &str) -> (String, Vec<u8>)) -> Vec<Project>
+{
 	vec![
 		Project{files: vec![f("a.asm", ".addr 0x100;\n.include \"a.asm\";\n")], root: "a.asm".into()},
 		Project{files: vec![f("a.asm", ".addr 0x100;\nNOP;\n.include \"./a.asm\";\n")], root: "a.asm".into()},
